@@ -18,7 +18,7 @@ RULE = ("Parameter grids over the fixture model's kwargs (a, b: small lists with
         "completion time, scalar or list; cost = per-run sleep 0-4 ms so that completion order is permuted), as dict and as "
         "ParameterList; repetitions 1-3; max_timesteps below / at / above stop or default; collectors None / 'rec' / ['rec'] / "
         "['rec','rec2']; processes 1..5 (thorough 1..16); optionally ONE combination marked to fail (constructor or system raises "
-        "a picklable InjectedFailure carrying the combination). The fixture's collectors append (kwargs signature, timestep) every "
+        "a picklable exception carrying the combination: a custom class, KeyError, ArithmeticError or StopIteration). The fixture's collectors append (kwargs signature, timestep) every "
         "timestep. Oracle: the multiset of results equals, per combination x repetition, [(sig, t) for t < min(stop, "
         "max_timesteps)] (product order repeated `repetitions` times when processes == 1); every result is pure (one signature, "
         "consecutive timesteps from 0, none at/after the limit or the completion); collectors=None -> []; an injected failure "
@@ -44,13 +44,17 @@ class Finisher(System):
             self.model.complete()
 
 
+FAILURES = {"injected": InjectedFailure, "stopiteration": StopIteration, "keyerror": KeyError, "systemexit-free": ArithmeticError}
+
+
 class Bomb(System):
-    def __init__(self, model, sig):
+    def __init__(self, model, sig, exc):
         super().__init__("bomb", model, priority=5)
         self.sig = sig
+        self.exc = exc
 
     def execute(self):
-        raise InjectedFailure(self.sig)
+        raise self.exc(self.sig)
 
 
 class SigCollector(Collector):
@@ -64,16 +68,16 @@ class SigCollector(Collector):
 
 
 class BatchModel(Model):
-    def __init__(self, a, b=0, stop=3, cost=0, fail_sig="", fail_where="ctor"):
+    def __init__(self, a, b=0, stop=3, cost=0, fail_sig="", fail_where="ctor", fail_exc="injected"):
         super().__init__()
         sig = f"a={a},b={b},stop={stop}"
         if cost:
             time.sleep((hash(sig) % (int(cost) + 1)) / 1000.0 if cost > 0 else 0)
         if fail_sig == sig and fail_where == "ctor":
-            raise InjectedFailure(sig)
+            raise FAILURES[fail_exc](sig)
         self.systems.add_system(Finisher(self, stop))
         if fail_sig == sig:
-            self.systems.add_system(Bomb(self, sig))
+            self.systems.add_system(Bomb(self, sig, FAILURES[fail_exc]))
         self.systems.add_system(SigCollector("rec", self, sig, 1))
         self.systems.add_system(SigCollector("rec2", self, sig, -1))
         self.systems.add_system(SigCollector("pre", self, sig, 1, priority=20))     # runs BEFORE the finisher: sees timestep `stop` too
@@ -110,6 +114,7 @@ def _run_case(case):
         fail_sig = sigs[int(fail) % len(sigs)]
         params["fail_sig"] = fail_sig
         params["fail_where"] = case.get("fail_where", "ctor")
+        params["fail_exc"] = case.get("fail_exc", "injected") if case.get("fail_exc") in FAILURES else "injected"
     p = params
     if case.get("plist"):
         p = ParameterList()
@@ -135,18 +140,20 @@ def _run_case(case):
         if fstop < 1 or (max_ts is not None and int(max_ts) < 1):
             fail_sig = None
     if fail_sig is not None:
+        exc_type = FAILURES[params["fail_exc"]]
+        desc += f" ({exc_type.__name__})"
         try:
             res = batch_run(BatchModel, p, **kw)
-        except InjectedFailure as e:
+        except exc_type as e:
             if not e.args or e.args[0] != fail_sig:
-                raise Violation("failure-mixed-up", f"{desc}: InjectedFailure carries {e.args}, expected {fail_sig}")
+                raise Violation("failure-mixed-up", f"{desc}: the {exc_type.__name__} carries {e.args}, expected {fail_sig}")
         except Exception as e:
             raise Violation("failure-wrong-error", f"{desc}: raised {type(e).__name__}: {e}")
         else:
             raise Violation("failure-swallowed", f"{desc}: batch_run returned {len(res) if isinstance(res, list) else res!r} results; the injected "
                                                  f"failure never reached the caller")
         pos = int(fail) % len(sigs)
-        return {"nontrivial": pos > 0, "labels": ["failure-injected", f"fail-{case.get('fail_where', 'ctor')}", f"procs{min(procs, 4)}{'+' if procs >= 4 else ''}"]}
+        return {"nontrivial": pos > 0, "labels": ["failure-injected", f"fail-{case.get('fail_where', 'ctor')}", f"exc-{exc_type.__name__}", f"procs{min(procs, 4)}{'+' if procs >= 4 else ''}"]}
 
     try:
         res = batch_run(BatchModel, p, **kw)
@@ -237,6 +244,7 @@ def strategy(tier):
         "plist": st.booleans(), "coll_tuple": st.booleans(),
         "fail": wone_of(st.none(), st.none(), st.none(), st.none(), st.integers(0, 11)),
         "fail_where": st.sampled_from(["ctor", "system"]),
+        "fail_exc": st.sampled_from(["injected", "injected", "stopiteration", "keyerror", "systemexit-free"]),
     })
 
 
@@ -254,3 +262,5 @@ def exhaustive(tier):
             for pos in range(n):
                 for where in ("ctor", "system"):
                     yield dict(g, cost=2, reps=1, processes=p, max_timesteps=None, collectors="rec", plist=False, fail=pos, fail_where=where)
+                yield dict(g, cost=2, reps=1, processes=p, max_timesteps=None, collectors="rec", plist=False, fail=pos, fail_where="ctor",
+                           fail_exc="stopiteration")
